@@ -169,6 +169,90 @@ func init() {
 		if int64(news) != admitted {
 			viol("admitted-vs-new", fmt.Sprintf("%d connections were served but %d new-client callbacks fired (refused %d)", admitted, news, refused), map[string]interface{}{"round": i, "seed": seed, "callbacks": trace})
 		}
+		// directed scenarios: the server's read pump is held inside the message handler while the client goes away
+		// and/or the server stops the connection
+		gate := make(chan struct{})
+		var held int32
+		c.onMsg = func(ch ws.Channel, data []byte) {
+			if string(data) == "hold" {
+				atomic.StoreInt32(&held, 1)
+				<-gate
+			}
+		}
+		for _, ca := range []string{"rst", "fin", "closeframe", "none"} {
+			for _, sa := range []string{"stopconn", "write-stopconn", "none"} {
+				id := "d-" + ca + "-" + sa
+				gate = make(chan struct{})
+				atomic.StoreInt32(&held, 0)
+				c.take()
+				d := rawDial(c.url(id), []string{"ocpp1.6"}, nil)
+				if d.err != nil {
+					viol("directed-dial:"+ca+":"+sa, fmt.Sprintf("directed scenario %s/%s: id %s cannot connect although nothing with that id is live: %v", ca, sa, id, d.err), map[string]interface{}{"client": ca, "server": sa})
+					continue
+				}
+				rc := newRawClient(d.conn)
+				_ = d.conn.WriteMessage(websocket.TextMessage, []byte("hold"))
+				if !waitCond(2*time.Second, func() bool { return atomic.LoadInt32(&held) == 1 }) {
+					cl, _ := rc.state()
+					viol("directed-refused:"+ca+":"+sa, fmt.Sprintf("directed scenario %s/%s: a fresh connection for id %s is not served (%s): an earlier connection of that id was never released", ca, sa, id, cl), map[string]interface{}{"client": ca, "server": sa})
+					_ = d.conn.Close()
+					close(gate)
+					continue
+				}
+				switch ca {
+				case "rst":
+					if tc, ok := d.conn.UnderlyingConn().(*net.TCPConn); ok {
+						_ = tc.SetLinger(0)
+					}
+					_ = d.conn.Close()
+				case "fin":
+					_ = d.conn.Close()
+				case "closeframe":
+					_ = d.conn.WriteControl(websocket.CloseMessage, websocket.FormatCloseMessage(websocket.CloseNormalClosure, ""), time.Now().Add(time.Second))
+				}
+				time.Sleep(3 * time.Millisecond)
+				switch sa {
+				case "stopconn":
+					_ = c.s.StopConnection(id, websocket.CloseError{Code: websocket.CloseNormalClosure, Text: ""})
+				case "write-stopconn":
+					_ = c.s.Write(id, []byte("x"))
+					_ = c.s.StopConnection(id, websocket.CloseError{Code: websocket.CloseNormalClosure, Text: ""})
+				}
+				time.Sleep(3 * time.Millisecond)
+				close(gate)
+				ended := ca != "none" || sa != "none"
+				if !ended {
+					_ = d.conn.Close()
+				}
+				okEnd := waitCond(3*time.Second, func() bool {
+					n := 0
+					for _, e := range c.snapshot() {
+						if e.kind == "disc" && e.id == id {
+							n++
+						}
+					}
+					_, live := c.s.GetChannel(id)
+					return n >= 1 && !live
+				})
+				c.settle(5*time.Millisecond, 100*time.Millisecond)
+				nd, nn := 0, 0
+				for _, e := range c.take() {
+					if e.kind == "disc" && e.id == id {
+						nd++
+					}
+					if e.kind == "new" && e.id == id {
+						nn++
+					}
+				}
+				res.Events += nd + nn
+				_, live := c.s.GetChannel(id)
+				if !okEnd || nd != 1 || nn != 1 || live {
+					viol("directed-lifecycle:"+ca+":"+sa, fmt.Sprintf("read pump held in the message handler, client %s, server %s, handler released: new-client callbacks %d, disconnected callbacks %d, id still reported connected: %v (want 1, 1, false)", ca, sa, nn, nd, live),
+						map[string]interface{}{"client": ca, "server": sa, "steps": "connect d; client sends `hold` (message handler blocks); client: " + ca + "; server: " + sa + "; release the handler; wait"})
+				}
+				_ = d.conn.Close()
+			}
+		}
 		done := make(chan struct{})
 		go func() { c.s.Stop(); close(done) }()
 		select {
